@@ -407,9 +407,9 @@ pub fn run(kind: &str, sc: &J) -> J {
             let g = |k: &str| sc.get(k).and_then(|v| v.as_i64()).unwrap_or(0);
             let base = DateTime::from_ymd(2020, 6, 15);
             let mut a = base;
-            *a = (*base + time::Duration::seconds(g("sa"))).to_offset(time::UtcOffset::from_hms(g("oa") as i8, 0, 0).unwrap());
+            *a = (*base + time::Duration::seconds(g("sa")) + time::Duration::nanoseconds(g("na"))).to_offset(time::UtcOffset::from_hms(g("oa") as i8, 0, 0).unwrap());
             let mut b = base;
-            *b = (*base + time::Duration::seconds(g("sb"))).to_offset(time::UtcOffset::from_hms(g("ob") as i8, 0, 0).unwrap());
+            *b = (*base + time::Duration::seconds(g("sb")) + time::Duration::nanoseconds(g("nb"))).to_offset(time::UtcOffset::from_hms(g("ob") as i8, 0, 0).unwrap());
             let (x, y) = (ScalarCow::new(a), ScalarCow::new(b));
             json!({"outcome": "ok", "eq": x == y, "cmp": ord_str(x.partial_cmp(&y))})
         }
